@@ -26,7 +26,7 @@ echo "== demo with change (must FAIL)"
 go test -vet=off -count=1 -run 'Seed|seed|Demo|demo|ZZ|Zz' "$PKG" 2>&1 | grep -v '^WARNING' | tail -4
 go test -vet=off -count=1 "$PKG" >/dev/null 2>&1; WITH=$?
 echo "== demo without change (must PASS)"
-git stash push -q -- $(git diff --name-only) ; go test -vet=off -count=1 "$PKG" 2>&1 | grep -v '^WARNING' | tail -2; go test -vet=off -count=1 "$PKG" >/dev/null 2>&1; WITHOUT=$?; git stash pop -q
+git apply -R "$OUT/patch.diff"; go test -vet=off -count=1 "$PKG" 2>&1 | grep -v '^WARNING' | tail -2; go test -vet=off -count=1 "$PKG" >/dev/null 2>&1; WITHOUT=$?; git apply "$OUT/patch.diff"
 echo "suite_nonok_lines=$SUITE demo_with_change_exit=$WITH demo_without_change_exit=$WITHOUT"
 # run checks against /repo with the patch applied
 cd /repo || exit 2
